@@ -19,8 +19,8 @@ class World:
     def __init__(self, sandbox: str, in_rel: str = "in", out_rel: str = "out", cwd_rel: str = "cwd"):
         self.sandbox = os.path.abspath(sandbox)
         self.in_dir = os.path.join(self.sandbox, in_rel)
-        self.out_dir = os.path.join(self.sandbox, out_rel)
-        self.cwd = os.path.join(self.sandbox, cwd_rel)
+        self.out_dir = os.path.normpath(os.path.join(self.sandbox, out_rel))
+        self.cwd = os.path.normpath(os.path.join(self.sandbox, cwd_rel))
         self.tpl_dir = os.path.join(self.sandbox, "tpl")
         for d in (self.in_dir, self.cwd):
             os.makedirs(d, exist_ok=True)
@@ -38,7 +38,7 @@ class World:
         if how == "rel_slash":
             return rel + "/"
         if how == "dotdot":
-            return os.path.join("..", os.path.basename(self.cwd), rel)
+            return os.path.join("..", os.path.basename(self.cwd), rel)  # leaves cwd and comes back
         raise ValueError(how)
 
     def argv(self, opts: dict) -> typing.List[str]:
